@@ -59,6 +59,8 @@ pub struct Scenario {
     pub back: String,  // h1 | h2
     pub mode: String,  // seq | seqgap | pipe | mux
     pub nbk: usize,    // backends of cluster a: 1 or 2 (second one healthy)
+    /// bf = listeners with back_timeout 1 s < front_timeout 2 s; ff = front_timeout 1 s < back_timeout 2 s
+    pub timing: String,
     /// mux mode: pause between the HEADERS of consecutive streams (0 = back to back)
     pub gap_ms: u64,
     pub reqs: Vec<ReqSpec>,
@@ -77,6 +79,7 @@ impl Scenario {
             back: gs(v, "back", "h1"),
             mode: gs(v, "mode", "seq"),
             nbk: gu(v, "nbk", 1) as usize,
+            timing: gs(v, "timing", "bf"),
             gap_ms: gu(v, "gap_ms", 0),
             reqs: reqs
                 .iter()
@@ -93,7 +96,7 @@ impl Scenario {
         }
     }
     pub fn to_json(&self) -> Value {
-        json!({"id": self.id, "front": self.front, "back": self.back, "mode": self.mode, "nbk": self.nbk, "gap_ms": self.gap_ms,
+        json!({"id": self.id, "front": self.front, "back": self.back, "mode": self.mode, "nbk": self.nbk, "timing": self.timing, "gap_ms": self.gap_ms,
                "reqs": self.reqs.iter().map(|r| json!({"route": r.route, "framing": r.framing, "body": r.body,
                     "fault": r.fault, "at": r.at, "k": r.k, "off": r.off})).collect::<Vec<_>>()})
     }
@@ -143,6 +146,9 @@ pub struct Rig {
     pub worker: Worker,
     pub http: SocketAddr,
     pub https: SocketAddr,
+    /// the "front first" listeners: front_timeout 1 s, back_timeout 2 s
+    pub http_ff: SocketAddr,
+    pub https_ff: SocketAddr,
 }
 
 pub fn start_rig(name: &str) -> Result<Rig, String> {
@@ -153,36 +159,40 @@ pub fn start_rig(name: &str) -> Result<Rig, String> {
         fc.max_connections = Some(8_000);
     });
     let mut w = Worker::start(name, cfg, &sozu_command_lib::scm_socket::Listeners::default(), sozu_command_lib::state::ConfigState::new());
-    let http = free_addr();
-    let https = free_addr();
-    let set = |b: &mut ListenerBuilder| {
-        b.front_timeout = Some(FRONT_TIMEOUT_S);
-        b.back_timeout = Some(BACK_TIMEOUT_S);
-        b.connect_timeout = Some(CONNECT_TIMEOUT_S);
-        b.request_timeout = Some(REQUEST_TIMEOUT_S);
-    };
-    let mut b = ListenerBuilder::new_http(http.into());
-    set(&mut b);
-    let l = b.to_http(None).map_err(|e| format!("http listener: {e}"))?;
-    let r1 = w.request(RequestType::AddHttpListener(l), t);
-    let r2 = w.request(RequestType::ActivateListener(ActivateListener { address: http.into(), proxy: ListenerType::Http.into(), from_scm: false }), t);
-    let mut b = ListenerBuilder::new_https(https.into());
-    set(&mut b);
-    let l = b.to_tls(None).map_err(|e| format!("https listener: {e}"))?;
-    let r3 = w.request(RequestType::AddHttpsListener(l), t);
-    let r4 = w.request(RequestType::ActivateListener(ActivateListener { address: https.into(), proxy: ListenerType::Https.into(), from_scm: false }), t);
-    let r5 = w.request(
-        RequestType::AddCertificate(AddCertificate {
-            address: https.into(),
-            certificate: CertificateAndKey { certificate: LOCAL_CERT.to_string(), key: LOCAL_KEY.to_string(), certificate_chain: vec![], versions: vec![], names: vec![] },
-            expired_at: None,
-        }),
-        t,
-    );
-    if !(ok(&r1) && ok(&r2) && ok(&r3) && ok(&r4) && ok(&r5)) {
-        return Err(format!("rig setup failed {:?}", [ok(&r1), ok(&r2), ok(&r3), ok(&r4), ok(&r5)]));
+    let mut addrs = Vec::new();
+    for (ft, bt) in [(FRONT_TIMEOUT_S, BACK_TIMEOUT_S), (BACK_TIMEOUT_S, FRONT_TIMEOUT_S)] {
+        let http = free_addr();
+        let https = free_addr();
+        let set = |b: &mut ListenerBuilder| {
+            b.front_timeout = Some(ft);
+            b.back_timeout = Some(bt);
+            b.connect_timeout = Some(bt);
+            b.request_timeout = Some(REQUEST_TIMEOUT_S);
+        };
+        let mut b = ListenerBuilder::new_http(http.into());
+        set(&mut b);
+        let l = b.to_http(None).map_err(|e| format!("http listener: {e}"))?;
+        let r1 = w.request(RequestType::AddHttpListener(l), t);
+        let r2 = w.request(RequestType::ActivateListener(ActivateListener { address: http.into(), proxy: ListenerType::Http.into(), from_scm: false }), t);
+        let mut b = ListenerBuilder::new_https(https.into());
+        set(&mut b);
+        let l = b.to_tls(None).map_err(|e| format!("https listener: {e}"))?;
+        let r3 = w.request(RequestType::AddHttpsListener(l), t);
+        let r4 = w.request(RequestType::ActivateListener(ActivateListener { address: https.into(), proxy: ListenerType::Https.into(), from_scm: false }), t);
+        let r5 = w.request(
+            RequestType::AddCertificate(AddCertificate {
+                address: https.into(),
+                certificate: CertificateAndKey { certificate: LOCAL_CERT.to_string(), key: LOCAL_KEY.to_string(), certificate_chain: vec![], versions: vec![], names: vec![] },
+                expired_at: None,
+            }),
+            t,
+        );
+        if !(ok(&r1) && ok(&r2) && ok(&r3) && ok(&r4) && ok(&r5)) {
+            return Err(format!("rig setup failed {:?}", [ok(&r1), ok(&r2), ok(&r3), ok(&r4), ok(&r5)]));
+        }
+        addrs.push((http, https));
     }
-    Ok(Rig { worker: w, http, https })
+    Ok(Rig { worker: w, http: addrs[0].0, https: addrs[0].1, http_ff: addrs[1].0, https_ff: addrs[1].1 })
 }
 
 pub struct ScnEnv {
@@ -198,7 +208,8 @@ impl Rig {
     pub fn setup(&mut self, scn: &Scenario) -> Result<ScnEnv, String> {
         let t = Duration::from_secs(20);
         let h2front = scn.front == "h2";
-        let front = if h2front { self.https } else { self.http };
+        let ff = scn.timing == "ff";
+        let front = match (h2front, ff) { (true, false) => self.https, (false, false) => self.http, (true, true) => self.https_ff, (false, true) => self.http_ff };
         let h2back = scn.back == "h2";
         let log = Log::default();
         let peer_closed = Arc::new(AtomicUsize::new(0));
